@@ -115,7 +115,7 @@ Fixpoint q_loop (ms : list rmove) (alpha : Z) (line : option (list move)) (st : 
   | m :: r =>
       do stp <- push st (rm m);
       do c <- child stp (- beta) (- alpha);
-      let st' := pop (ist c) in
+      let st' := poll (pop (ist c)) in
       let s := - iv c in
       let '(up, st'') := if st_intr st' then (true, st') else time_up st' in
       if up then Ok (ir alpha line st'')
@@ -134,10 +134,11 @@ Proof.
   cbn [q_loop]. intros H.
   apply bind_ok in H as (stp & H1 & H). apply bind_ok in H as (c & H2 & H). cbv zeta in H.
   exists stp, c.
-  destruct (st_intr (pop (ist c))) eqn:EI.
-  - exists (pop (ist c)). cbv beta iota in H. inversion H. repeat split; auto using same_refl.
-  - destruct (time_up (pop (ist c))) as [up st''] eqn:T. exists st''.
-    split; [assumption|]. split; [assumption|]. split; [eapply time_up_snd; eassumption|].
+  destruct (st_intr (poll (pop (ist c)))) eqn:EI.
+  - exists (poll (pop (ist c))). cbv beta iota in H. inversion H. repeat split; auto using same_refl; apply same_poll.
+  - destruct (time_up (poll (pop (ist c)))) as [up st''] eqn:T. exists st''.
+    split; [assumption|]. split; [assumption|].
+    split; [eapply same_trans; [apply same_poll | eapply time_up_snd; eassumption]|].
     destruct up.
     + left. inversion H; reflexivity.
     + destruct (- iv c >=? beta).
